@@ -4,6 +4,8 @@ import Rpcx.Driver.Wire
 import Rpcx.Driver.Breaker
 import Rpcx.Driver.Select
 import Rpcx.Driver.Pool
+import Rpcx.Driver.FailMode
+import Rpcx.Driver.Fanout
 /-
   Line-protocol driver: one operation per input line, one canonical output line per
   operation.  Runs the executable definitions of the model (generated and hand-written);
@@ -21,6 +23,9 @@ def step (line : String) : String :=
   | "brk" :: ws => cmdBrk ws
   | "sel" :: ws => cmdSel ws
   | "pool" :: ws => cmdPool ws
+  | "fm" :: ws => cmdFm ws
+  | "fb" :: ws => cmdFb ws
+  | "fan" :: ws => cmdFan ws
   | _ => "bad-op"
 
 partial def loop (hin : IO.FS.Stream) (hout : IO.FS.Stream) : IO Unit := do
